@@ -86,3 +86,32 @@ Proof.
   match goal with R : reach03a _ _ _ _ ?v |- _ => exists v end.
   split; [assumption|]. split; [vm_compute; reflexivity|]. split; [assumption | vm_compute; reflexivity].
 Qed.
+
+(* ---------- every class of excl03 is needed: a wfh record, a call in the class, a result outside wf_b ---------- *)
+(* host functions of C02_Reach.v: every text is a domain *)
+Definition excl_witness (u : url) (o : op) : bool :=
+  wf_b u && host_text_b u
+  && match apply_op true toy_hp toy_hp toy_hd u o with
+     | Some u' => excl03 u o u' && negb (wf_b u')
+     | None => false
+     end.
+
+Definition w_marker : url := mkUrl (B "a:/.//p") 1 2 2 2 HI_None None 4 None None.
+Definition w_port : url := mkUrl (B "a://h:80/") 1 4 4 5 HI_Domain (Some 80) 8 None None.
+Definition w_2slash : url := mkUrl (B "a://h//x") 1 4 4 5 HI_Domain None 5 None None.
+Definition w_opaque : url := mkUrl (B "a:b") 1 2 2 2 HI_None None 2 None None.
+Definition w_noauth : url := mkUrl (B "a:/p") 1 2 2 2 HI_None None 2 None None.
+Definition w_auth_end : url := mkUrl (B "http:///p") 4 7 7 7 HI_None None 7 None None.
+
+Lemma excl03_witnesses :
+  excl_witness w_marker (OSetHost (Some (B "h"))) = true            (* F-C03-5: "a://h/.//p" *)
+  /\ excl_witness w_marker (OSetIpHost (HIpv4 1)) = true
+  /\ excl_witness w_port (OSetHost (Some [])) = true                (* F-C02-4: "a://:80/" *)
+  /\ excl_witness w_2slash (OSetHost None) = true                   (* F-C02-2: "a://x" *)
+  /\ excl_witness w_opaque (OSetPath (B "?")) = true                (* F-C02-3: "a:?" with the '?' in the path *)
+  /\ excl_witness w_noauth (OSetPath (B "//x")) = true              (* F-C02-8: "a://x" *)
+  /\ excl_witness w_noauth (OQPathname (B "//x")) = true
+  /\ excl_witness w_marker (OSetPath (B "/q")) = true               (* F-C03-5: "a:/./q" *)
+  /\ excl_witness w_marker (OPathSegments [PClear]) = true
+  /\ excl_witness w_auth_end (OSetPath (B "x")) = true.             (* "http://x" with path "x": not a reachable receiver *)
+Proof. vm_compute. repeat split. Qed.
